@@ -53,25 +53,25 @@ def _mt(ref, text):
 
 
 MANIFEST_TEXT = {
-    "C01": _mt("DESIGN.md 5 C01", "The spec's ScalarExact/FlagSemantics/CalledExact predicates hold in every state TLC reaches for all argv up to the bound over the scalar families (3 modes); every one of those argv plus seeded random definitions with wild value texts is executed on the real library and its outcome (values via strconv oracle, Called, error) validated against the spec by TLC."),
-    "C02": _mt("DESIGN.md 5 C02", "IntakeCount/StoredInOrder/MapStored recompute each multi-value option's content declaratively from ghost token roles and TLC checks them on all argv up to the bound over the (min,max) grid x 4 element types; the same cases and random ones are run on the real library and validated."),
-    "C03": _mt("DESIGN.md 5 C03", "Conservation (remaining = tokens whose ghost role is text/pass/tail/stop, in order) is a TLC invariant over token kinds x 3 modes x 3 unknown modes x require-order x a two-level command tree; real outcomes of every such argv and of random trees are validated against the spec."),
+    "C01": _mt("DESIGN.md 5 C01", "The spec's ScalarExact/FlagSemantics/CalledExact predicates hold in every state TLC reaches for all argv up to the bound over the scalar families (3 modes); every one of those argv plus seeded random definitions with wild value texts is executed on the real library and its outcome (values via strconv oracle, Called, error) validated against the spec by TLC. The program's own SetValue calls (values and their error results) are part of the definitions; values that begin with a separator character, empty strings and words that are also command names are in the alphabets; Value / Called / CalledAs are read through every name and through the top-level object after a wrapper or help command was selected."),
+    "C02": _mt("DESIGN.md 5 C02", "IntakeCount/StoredInOrder/MapStored recompute each multi-value option's content declaratively from ghost token roles and TLC checks them on all argv up to the bound over the (min,max) grid x 4 element types; the same cases and random ones are run on the real library and validated. Maxima up to the largest int, environment variables bound to multi-value options (documented no-op) and SetValue presets (BaseVal) are covered."),
+    "C03": _mt("DESIGN.md 5 C03", "Conservation (remaining = tokens whose ghost role is text/pass/tail/stop, in order) is a TLC invariant over token kinds x 3 modes x 3 unknown modes x require-order x a two-level command tree; real outcomes of every such argv and of random trees are validated against the spec. The harness overwrites the argument slice after Parse: the remaining list must not share memory with it (observable `aliased`)."),
     "C04": _mt("DESIGN.md 5 C04", "TerminatorRoles plus the action property Frozen (no option/command/unknown bookkeeping changes once `--` was reached) checked by TLC with `--` at every position after every option kind; real outcomes validated."),
-    "C05": _mt("DESIGN.md 5 C05", "Relational invariant UniquePrefixEqFull (run on the command line with every unique prefix replaced by the full name gives the same outcome and CalledAs), ExactWins and AmbiguousRejectedAll checked by TLC over nested-prefix name sets; real outcomes incl. the candidate list validated."),
-    "C06": _mt("DESIGN.md 5 C06", "AliasEqPrimary (relational), CalledExact, UntouchedKeepDefault and the frame action property checked by TLC for all 12 kinds with aliases; the harness additionally asserts pointer / *Var / Value(name) / Value(alias) agreement on every executed case."),
+    "C05": _mt("DESIGN.md 5 C05", "Relational invariant UniquePrefixEqFull (run on the command line with every unique prefix replaced by the full name gives the same outcome and CalledAs), ExactWins and AmbiguousRejectedAll checked by TLC over nested-prefix name sets; real outcomes incl. the candidate list validated. History cases: an earlier Parse on the same object, also one that ran before the help option was declared, must not change what an abbreviation resolves to."),
+    "C06": _mt("DESIGN.md 5 C06", "AliasEqPrimary (relational), CalledExact, UntouchedKeepDefault and the frame action property checked by TLC for all 12 kinds with aliases; the harness additionally asserts pointer / *Var / Value(name) / Value(alias) agreement on every executed case. History cases (a Parse after an earlier Parse, also a two-pass program) compare what a fresh Parse establishes: Called / CalledAs of options given now, through the environment or by SetCalled."),
     "C07": _mt("DESIGN.md 5 C07", "LongModeIndependent and RewriteEquiv (outcome equals the outcome of the documented rewriting, written from the documentation table, not from the splitter) checked by TLC over single-dash tokens incl. multibyte letters; real outcomes in all 3 modes validated."),
-    "C08": _mt("DESIGN.md 5 C08", "UnknownNeverDropped checked by TLC over trees with wrappers and unknown tokens before/after command tokens in 3 unknown modes; real error / warning / remaining validated."),
-    "C09": _mt("DESIGN.md 5 C09", "StopRoles, PrefixAsUnordered and NoStopAsUnordered (relational: state before the stop point equals the state of an unordered parse of the prefix) checked by TLC; real outcomes validated."),
+    "C08": _mt("DESIGN.md 5 C08", "UnknownNeverDropped checked by TLC over trees with wrappers and unknown tokens before/after command tokens in 3 unknown modes; real error / warning / remaining validated. Definitions are built in several API call orders (settings before / after the commands, inherited or explicit, options before / after the commands, nested wrappers unset afterwards)."),
+    "C09": _mt("DESIGN.md 5 C09", "StopRoles, PrefixAsUnordered and NoStopAsUnordered (relational: state before the stop point equals the state of an unordered parse of the prefix) checked by TLC; real outcomes validated. Require-order set on the top level only (inherited), on a deeper command only, and tails that contain `--`, empty strings and `-=x` are covered."),
 }
 
 MANIFEST_TEXT.update({
-    "C10": _mt("DESIGN.md 5 C10", "ExactlyOneFn and DeepestCommand (the node reached by following exactly the tokens with ghost role cmd) checked by TLC over command trees with functions, own/inherited options, wrappers, require-order and help; the harness's instrumented CommandFns record which function ran how often, with which context, arguments and option view, and TLC validates that against the spec."),
+    "C10": _mt("DESIGN.md 5 C10", "ExactlyOneFn and DeepestCommand (the node reached by following exactly the tokens with ghost role cmd) checked by TLC over command trees with functions, own/inherited options, wrappers, require-order and help; the harness's instrumented CommandFns record which function ran how often, with which context, arguments and option view, and TLC validates that against the spec. Options declared after the commands of a level (re-propagated by a later NewCommand or the help command), wrappers with own options and sub-commands, required options above wrappers and GetRequiredArg helpers with fewer named arguments than calls are covered."),
     "C11": _mt("DESIGN.md 5 C11", "RequiredEnforced checked by TLC with required options at every level x custom messages x env binding x help by option, alias, abbreviation and help command; real Parse/Dispatch errors (errors.Is(ErrorParsing), custom message), help level and executed functions validated; which of several missing options is named is left open here (C20 fixes the rule)."),
-    "C17": _mt("DESIGN.md 5 C17", "GetoptComp.tla mirrors the completion branch (earlier words parsed with the ordinary parser steps in the configured mode, candidates generated at the level reached); TLC checks CandidatesExact (the operational candidate list equals the declarative definition written from the property statement) and OfferedAccepted on every COMP_LINE up to the bound x bash/zsh; the real completion output (bag of candidates, sortedness, exactly one exit with 124, no command function run, nothing on Writer) is validated for every such line and random ones."),
-    "C20": _mt("DESIGN.md 5 C20", "In the specification every outcome is a function of (definition, input): the only place where the code consults an unordered table to choose a diagnostic (missing required option) is modelled with an explicit rule (first missing name in the level's sorted name list, FixedRule); TLC validates the exact diagnostic, and every case is executed 7 times in one process (Go re-randomises map iteration per range) and again in a fresh process, with a hash over every observable (values, remaining, full error text, Writer text incl. help, completion output) required to be identical."),
-    "C18": _mt("DESIGN.md 5 C18", "GetoptHelp.tla defines the help document of a command level (synopsis items, required / option lists with aliases, defaults, environment variables, command list, footer); the real text printed through Help(), the help option and the help command is parsed back into that structure, TLC checks (a) equality with the specified document, (b) the property statement HelpDocComplete directly on the parsed text (every option of the level exactly once in exactly one list with all aliases, required iff required, default iff not required, env iff bound; every sub-command except help exactly once), (c) the three paths give the same text; over all 12 kinds x alias counts x required x env x multi-line descriptions x levels and random definitions. The spec side of (a) is close to definitional: the weight is on the enumeration and the parse-back."),
+    "C17": _mt("DESIGN.md 5 C17", "GetoptComp.tla mirrors the completion branch (earlier words parsed with the ordinary parser steps in the configured mode, candidates generated at the level reached); TLC checks CandidatesExact (the operational candidate list equals the declarative definition written from the property statement) and OfferedAccepted on every COMP_LINE up to the bound x bash/zsh; the real completion output (bag of candidates, sortedness, exactly one exit with 124, no command function run, nothing on Writer) is validated for every such line and random ones. Suggested values that end in `=`, options whose names are prefixes of each other, the lone dash option, wrappers with own options and sub-commands, and raw COMP_LINE texts are covered."),
+    "C20": _mt("DESIGN.md 5 C20", "In the specification every outcome is a function of (definition, input): the only place where the code consults an unordered table to choose a diagnostic (missing required option) is modelled with an explicit rule (first missing name in the level's sorted name list, FixedRule); TLC validates the exact diagnostic, and every case is executed 7 times in one process (Go re-randomises map iteration per range) and again in a fresh process, with a hash over every observable (values, remaining, full error text, Writer text incl. help, completion output) required to be identical. Definitions the specification does not admit (two options sharing a key along one root-to-leaf chain) are run as determinism-only cases."),
+    "C18": _mt("DESIGN.md 5 C18", "GetoptHelp.tla defines the help document of a command level (synopsis items, required / option lists with aliases, defaults, environment variables, command list, footer); the real text printed through Help(), the help option and the help command is parsed back into that structure, TLC checks (a) equality with the specified document, (b) the property statement HelpDocComplete directly on the parsed text (every option of the level exactly once in exactly one list with all aliases, required iff required, default iff not required, env iff bound; every sub-command except help exactly once), (c) the three paths give the same text; over all 12 kinds x alias counts x required x env x multi-line descriptions x levels and random definitions. The spec side of (a) is close to definitional: the weight is on the enumeration and the parse-back. Also equal to that text: Help() of the level's own object without a Parse, and the concatenation of single sections for section lists in several orders. Definitions vary in API call order (several Alias modifiers, modifiers in another order, options after commands, Var receivers holding other content)."),
     "C19": dict(_mt("DESIGN.md 5 C19", "Spec side: totality (NotStuck: the case analysis of the loop has no hole), termination (every step decreases a lexicographic variant, an action property) and ErrImpliesNilRest are checked by TLC on every family. Code side is observational, hence the level: a byte-level driver (raw random bytes as tokens, COMP_LINE words and environment values, 1000-4000 byte tokens, bundles of up to 1200 letters, int ranges at the int64 boundaries with spans <= 10^4) runs Parse / Dispatch / completion under recover and a 3 s watchdog and checks no panic, no hang, nil remaining on error and exactly one exit on the completion path; the cases representable as atoms are additionally validated against the specification."), level="exploration"),
-    "C12": _mt("DESIGN.md 5 C12", "EnvPrecedence with the definition-time environment step modelled before any command-line step, checked by TLC for every supported kind x env text class x CLI spelling; real values, Called and CalledAs validated."),
+    "C12": _mt("DESIGN.md 5 C12", "EnvPrecedence with the definition-time environment step modelled before any command-line step, checked by TLC for every supported kind x env text class x CLI spelling; real values, Called and CalledAs validated. Also: the GetEnv modifier created before the variable exists (read at declaration), SetCalled placed before GetEnv, environment variables on multi-value options, SetValue presets, an earlier Parse on the same object."),
 })
 
 MC_CFG = """SPECIFICATION Spec
